@@ -114,7 +114,18 @@ def handleIndexSrc (hdr : List String) (body : List (List String)) : List String
         (startBase, false) |>.1
       let missed := wanted.filter (fun n => n < idxEnd && n ≤ lastNum && !nums.contains n)
       let m2 := if missed.isEmpty then [] else [s!"monitor C15 FAIL indexed-matching-block-not-delivered-by-the-file-source ({missed})"]
-      model ++ (m1 ++ m2).take 1
+      -- "nothing besides": in a bundle the index covers (the last covered bundle aside: the launcher re-reads it
+      -- unfiltered when the next file is not there), a delivered block is the first stored block at or above a
+      -- number the provider reported for that bundle, or the start, stop or a whitelisted number
+      let extra := impl.filter (fun (p : Id × Nat) =>
+        let n := p.2
+        let b := lowBoundary n bs
+        if b + bs ≥ idxEnd then false else
+        let wantedB : List Nat := (match prov b with | some (some l) => l | _ => []) ++ [st] ++ (if sp == 0 then [] else [sp]) ++ wl
+        let stored : List Nat := ((findBundle bundles b).map (fun bu => (bu.blocks.filter (fun x => x.num ≥ b && x.num ≥ st)).map (·.num))).getD []
+        !(wantedB.any (fun w => w ≤ n && !(stored.any (fun x => w ≤ x && x < n)))))
+      let m3 := if extra.isEmpty then [] else [s!"monitor C15 FAIL indexed-file-source-delivers-a-block-nobody-asked-for ({extra.map (·.2)})"]
+      model ++ (m1 ++ m2 ++ m3).take 1
     | _, _, _ => ["model bad-case"]
   | _ => ["model bad-case"]
 
